@@ -30,7 +30,7 @@ MANIFEST_ENTRY = {
     "design_ref": "7 C17",
     "level_text": (
         "Lean 4 proof over an abstract object-graph model of the management store (Stream, MediaFile, Blob, Key, "
-        "key links, MultiPeriodStream, Period, AdaptationSet, timing references, blob files on disk; 13 management "
+        "key links, MultiPeriodStream, Period, AdaptationSet, timing references, blob files on disk; 14 management "
         "operations with the ORM cascade rules and the handlers' refusals): referential consistency is an invariant "
         "of every finite history (inv_init, inv_step, inv_reachable, reachable_consistent), every media file keeps "
         "its blob file on disk (blob_files_reachable), every deletion removes exactly the rows reachable through "
@@ -64,7 +64,14 @@ ASSUMPTIONS = [
     "within a single request (malformed input is C16)",
     "management operations answering 5xx (duplicate stream directory: IntegrityError) are modelled as refusals that "
     "leave the store unchanged; the property's 5xx clause is about manifests of listed streams",
-    "manifests requested: hand_made.mpd in vod and live mode with default options, and vod with drm=all",
+    "manifests requested: hand_made.mpd in vod and live mode with default options, and vod with drm=all; media "
+    "requested: init and first media segment (live and vod) of every stream's timing-reference file",
+    "stream defaults (Stream.defaults JSON) are not part of the modelled state (no reference or constraint depends on "
+    "them): setDefaults only answers ok/nf/rej; the generator submits every field of the defaults page with legal "
+    "values of every kind and the oracle then requests manifests and segments. Not generated: the `drm_<system>` "
+    "fields the handler reads but the page does not offer (with a location the POST answers 500 and saves nothing - C16)",
+    "media-file edits that the application refuses (clock past 2040-02-06, language tags that cannot be packed into "
+    "mdhd) are exercised by the channel edit_refused, outside the model: a controlled answer, rows and files unchanged",
     "ownership used by the deletion oracle: Stream owns its media files and the Periods that play it, MediaFile owns "
     "its blob, key links and error rows, Key owns its links only, MultiPeriodStream owns its Periods, Period its "
     "AdaptationSets; deleting a media file may clear the timing reference of its stream (0b30ad8), nothing else changes",
@@ -78,6 +85,31 @@ KIND_WEIGHTS = [("v1", 3), ("v2", 2), ("v9", 1), ("a1", 2), ("ev", 1.5), ("e2", 
                 ("s1", .5), ("jk", .5), ("em", .15), ("ft", .7), ("fa", .25), ("fv", .15), ("fe", .25)]
 SHARED_KID_KINDS = ["ev", "e2", "eb"]          # encrypted payloads that use one and the same key id
 KIDS = ["1ab45440532c439994dc5c5ad9584bac", "0f1e2d3c4b5a69788796a5b4c3d2e1f0", "aa" * 16]
+# the form of the stream defaults page (/stream/<spk>/defaults): every field it offers with legal values of every
+# kind (written from the page and the option documentation, not from dashlive's registry)
+DEFAULTS_FORM = {
+    "start": ["now", "today", "month", "year", "epoch", "2024-01-01T00:00:00Z", "2023-06-01T12:30:00+02:00",
+              "2022-02-28T23:59:59.5Z"],
+    "depth": ["0", "1", "60", "3600"], "mup": ["-1", "0", "1", "30"], "leeway": ["0", "5", "100"],
+    "time": ["xsd", "iso", "ntp", "http-ntp", "head", "direct", "none"], "ntp_servers": ["europe-ntp", "google"],
+    "abr": ["0", "1"], "acodec": ["mp4a", "ec-3", "any"], "tcodec": ["stpp", "wvtt"], "tlang": ["eng"],
+    "timeline": ["0", "1"], "base": ["0", "1"], "patch": ["0", "1"], "bugs": ["saio"],
+    "ad_audio": ["aa"], "main_audio": ["aa"], "main_text": ["tx"],
+    "events": ["ping", "scte35"],
+    "ping__count": ["0", "3"], "ping__duration": ["100"], "ping__interval": ["1000"], "ping__start": ["0", "200"],
+    "ping__timescale": ["1000"], "ping__value": ["abc", "x&y"], "ping__version": ["0", "1"], "ping__inband": ["0", "1"],
+    "scte35__count": ["0", "3"], "scte35__duration": ["200"], "scte35__interval": ["1000"], "scte35__program_id": ["5"],
+    "scte35__start": ["0"], "scte35__timescale": ["100"], "scte35__value": ["x"], "scte35__version": ["0", "1"],
+    "scte35__inband": ["0", "1"],
+    # the DRM check boxes under the names the page gives them.  (The handler reads `drm_<system>` instead; with those
+    # names and a location the POST answers 500 - DrmLocation is not JSON serialisable - and saves nothing: a
+    # management-call failure outside C17's clauses, reported to C16 and not generated here.)
+    "clearkey__enabled": ["on"], "playready__enabled": ["on"], "marlin__enabled": ["on"],
+    "clearkey__drmloc": ["pro", "cenc", "moov", "cenc-moov"], "playready__drmloc": ["pro", "cenc", "moov", "pro-cenc"],
+    "marlin__drmloc": ["cenc", "moov"], "clearkey__la_url": ["https://lic.example/ck?a=1&b=2"],
+    "playready__piff": ["0", "1"], "playready__version": ["1.0", "2.0", "3.0", "4.0", "4.1", "4.2", "4.3"],
+}
+DEFAULTS_ILLEGAL = [("start", "not-a-date"), ("depth", "abc"), ("mup", "x"), ("leeway", "q")]
 MPS_NAMES = ["mpsone", "mpstwo", "mp"]
 MPS_TITLES = ["MPS_one", "MPS_two", "M2"]
 PIDS = ["p1", "p2", "p3"]
@@ -213,6 +245,26 @@ def shared_key_op(rng, rows):
     return ("up", spk, rng.choice(free), ".mp4", rng.choice(SHARED_KID_KINDS))
 
 
+def gen_defaults(rng, streams):
+    """a submission of the stream defaults page: one to four fields with legal values (an explicit start time half of
+    the time: the only option whose value is not a JSON scalar), now and then one illegal value"""
+    spk = pick_pk(rng, streams)
+    form = {}
+    if rng.random() < .5:
+        form["start"] = rng.choice(DEFAULTS_FORM["start"])
+    for _ in range(rng.randrange(0, 4)):
+        n = rng.choice(sorted(DEFAULTS_FORM))
+        form[n] = rng.choice(DEFAULTS_FORM[n])
+        if n.startswith("ping__") or n.startswith("scte35__"):
+            form["events"] = n.split("__")[0]
+    valid = True
+    if rng.random() < .08:
+        n, v = rng.choice(DEFAULTS_ILLEGAL)
+        form[n] = v
+        valid = False
+    return ("sd", spk, tuple(sorted(form.items())), valid)
+
+
 def pick_url_stream(rng, streams, f):
     """the <spk> of a route that takes both a stream and a media file id (/stream/<spk>/<mfid>…): the file's
     own stream, ANOTHER existing stream (media file ids are global, the handlers accept the mismatched pair),
@@ -260,6 +312,7 @@ def gen_op(rng, rows):
         ("em", 2 if indexed else .2),
         ("dm", 2 if files else .15),
         ("ds", .8 if streams else .1),
+        ("sd", 2.2 if streams else .1),
         ("ak", .9), ("ek", .6 if keys else .1), ("dk", .9 if keys else .1),
         ("am", 3 if ready else .5),
         ("mm", 2.5 if mps else .15),
@@ -311,6 +364,8 @@ def gen_op(rng, rows):
         return ("dm", pick_url_stream(rng, streams, f), mfid, rng.randrange(2))
     if k == "ds":
         return ("ds", pick_pk(rng, streams), rng.randrange(2))
+    if k == "sd":
+        return gen_defaults(rng, streams)
     if k == "ak":
         return ("ak", rng.choice(KIDS), rng.random() < .5)
     if k == "ek":
@@ -387,6 +442,7 @@ def run_history(w, ops, gen=None, oracle=True):
     out = {"ops": [], "real": [], "status": [], "failures": []}
     rows = w.rows()
     prev = w.canonical(rows)
+    prev_served = w.served_signature(rows)
     mstatus: dict = {}
     n = len(ops) if ops is not None else gen[1]
     for i in range(n):
@@ -399,9 +455,11 @@ def run_history(w, ops, gen=None, oracle=True):
         out["real"].append(res + "|" + canon)
         out["status"].append(st)
         if oracle:
-            fails, mstatus = step_failures(w, before, mstatus, op, res, rows, canon != prev)
+            served = w.served_signature(rows)
+            fails, mstatus = step_failures(w, before, mstatus, op, res, rows, canon != prev or served != prev_served)
             if fails:
                 out["failures"].append((i, fails))
+            prev_served = served
         prev = canon
     return out
 
@@ -457,8 +515,15 @@ def shrink(w, ops, key, budget_s=30.0):
 
 
 def ops_json(ops):
-    return [list(o[:-1]) + [[list(p[:-1]) + [list(p[-1])] for p in o[-1]]] if o[0] in ("am", "mm") else list(o)
-            for o in ops]
+    out = []
+    for o in ops:
+        if o[0] in ("am", "mm"):
+            out.append(list(o[:-1]) + [[list(p[:-1]) + [list(p[-1])] for p in o[-1]]])
+        elif o[0] == "sd":
+            out.append([o[0], o[1], [list(p) for p in o[2]], bool(o[3])])
+        else:
+            out.append(list(o))
+    return out
 
 
 def ops_from_json(js):
@@ -467,6 +532,8 @@ def ops_from_json(js):
         if o[0] in ("am", "mm"):
             ps = tuple((p[0], p[1], p[2], p[3], tuple(p[4])) for p in o[-1])
             out.append(tuple(o[:-1]) + (ps,))
+        elif o[0] == "sd":
+            out.append((o[0], o[1], tuple((p[0], p[1]) for p in o[2]), bool(o[3])))
         else:
             out.append(tuple(o))
     return out
@@ -579,6 +646,60 @@ def channels(ctx):
     ch.count("histories", len(hs))
     ch.count("http_requests", w.requests)
     yield ch
+    yield edit_refused_channel(w)
+
+
+def edit_refused_channel(w):
+    """media-file edits the application must refuse (not modelled: the model's editMedia has no clock and no
+    language argument): the refusal is a controlled answer and leaves rows and blob folder exactly as they were"""
+    import appboot
+    ch = Channel("edit_refused", rule=(
+        "EditMedia.post requests that cannot be carried out - the clock past 2040-02-06 (tkhd version 0 keeps its "
+        "modification time in 32 bits) and language tags that cannot be packed into mdhd (2 letters, 1 letter, empty) - "
+        "on an indexed video and an indexed audio file: the answer is < 500, every row and every file is unchanged "
+        "(no half-written new blob file), the store is consistent and still served; non-trivial = every case"))
+    setup = [("as", "alpha", "Title_one"), ("up", 1, "va", ".mp4", "v1"), ("ix", 1), ("up", 1, "aa", ".mp4", "a1"),
+             ("ix", 2), ("es", 1, "alpha", "Title_one", "va")]
+    cases = [(mf, clock, track, lang) for mf in (1, 2) for clock, track, lang in (
+        ("2041-03-01T00:00:00Z", 5, None), ("2106-02-08T00:00:00Z", 5, "eng"), (None, 5, "en"), (None, 1, "e"),
+        (None, 2, ""))]
+    for mf, clock, track, lang in cases:
+        ch.evaluations += 1
+        w.reset()
+        for op in setup:
+            w.apply(op)
+        before = w.rows()
+        data = {"track_id": str(track), "csrf_token": w.token("files")}
+        if lang is not None:
+            data["lang"] = lang
+        try:
+            if clock:
+                with appboot.Clock(clock):
+                    w._login()
+                    r = w.c.post(f"/stream/1/{mf}/edit", data=data)
+                w._login()
+            else:
+                r = w.c.post(f"/stream/1/{mf}/edit", data=data)
+        except Exception as e:
+            ch.errors.append(f"{type(e).__name__}: {e}")
+            continue
+        after = w.rows()
+        case = {"media_file": mf, "clock": clock, "track_id": track, "lang": lang, "status": r.status_code,
+                "location": r.headers.get("Location")}
+        problems = []
+        if r.status_code >= 500:
+            problems.append(f"POST /stream/1/{mf}/edit -> {r.status_code}")
+        refused = r.status_code != 302 or "/edit" in (r.headers.get("Location") or "")
+        if refused and w.canonical(after) != w.canonical(before):
+            problems.append("a refused edit changed rows or files: " + w.canonical(after))
+        problems += w.inv_failures(after) + w.service_failures(after)
+        ch.count("refused" if refused else "carried_out")
+        ch.nontrivial.add((mf, clock, track, lang))
+        ch.sample(case, limit=3)
+        if problems:
+            ch.oracle_failures.append({"case": case, "failure": problems[0], "failure_class": fkey(problems[0]),
+                                       "all": problems[:5]})
+    return ch
 
 
 def disagrees(w, ops):
@@ -645,6 +766,11 @@ def search(ctx, disagreements):
 
 def replay(ctx, payload):
     f = payload.get("failure") or {}
+    if "case" in f and "history" not in f:
+        ch = edit_refused_channel(_w())
+        hits = [x for x in ch.oracle_failures if x["case"].get("media_file") == f["case"].get("media_file") and
+                x["case"].get("clock") == f["case"].get("clock") and x["case"].get("lang") == f["case"].get("lang")]
+        return {"fails": bool(hits), "failures": [x["failure"] for x in hits], "case": f["case"]}
     if "history" not in f:
         return {"fails": False, "note": "replay names a broken obligation, no input", "payload": payload.get("broken")}
     w = _w()
